@@ -3176,6 +3176,77 @@ def pss_post(c, p):
     return and_(eq(tail1, want), or_(not_(eliciting), eq(c.ex.read_key(st, F("largest_ack_eliciting_sent"), BV64).t, c.inp("_2", BV64))))
 
 
+# ------------------------------------------------------------------ C05: SendBuffer::unacked leaves out what was acknowledged behind a hole
+def sbu_post(c, p):
+    st = p.p.state
+    if p.p.outcome != "return":
+        return "true"
+    it = [x for x in st.calls if re.search(r"RangeSet::iter$", x[0])]
+    fold = [x for x in st.calls if re.search(r"Iterator>::(fold|sum)\b", x[0])]
+    if len(it) != 1 or len(fold) != 1:
+        return "false"
+    acks = "*_1.%d" % c.field("connection/send_buffer.rs", "SendBuffer", "acks")
+    if not (it[0][1][0][0] == "ref" and str(_k(it[0][1][0][1])) == acks):
+        return "false"
+    total = fold[0][2] if str(fold[0][2]).startswith("|") else c.ex.read_key(st, fold[0][2], BV64).t
+    ul = c.inp("*_1.%d" % c.field("connection/send_buffer.rs", "SendBuffer", "unacked_len"), BV64)
+    return eq(c.ex.read_key(st, "_0", BV64).t, "(bvsub %s %s)" % (ul, total))
+
+
+Q(name="e2_sendbuf_unacked_subtracts_acked", props=["C05", "C01"], func=r"send_buffer\.rs:\d+:1: \d+:16>::unacked$",
+  allowed_panics=r"attempt to compute", ignore_untranslatable=r".",
+  functions=["SendBuffer::unacked"], pre=lambda c: "true", post=sbu_post,
+  bounds="every buffer state, the fold over the set of acknowledged ranges opaque (its per-range term is e2_sendbuf_unacked_range_term): the amount reported as unacknowledged is the buffered length MINUS the total of the ranges acknowledged behind a hole - SendStream::reset and the Finished / Stopped paths give exactly this amount back to the connection's send window, which received_ack_of has already credited for those ranges, so leaving the subtraction out lets later writes exceed send_window",
+  replay=("sendbuf_unacked_native", lambda m: [dict(x=0)]))
+
+
+def sbut_post(c, p):
+    st = p.p.state
+    if p.p.outcome != "return":
+        return "true"
+    return eq(c.ex.read_key(st, "_0", BV64).t, "(bvsub %s %s)" % (c.inp("_2.1", BV64), c.inp("_2.0", BV64)))
+
+
+Q(name="e2_sendbuf_unacked_range_term", props=["C05", "C01"], func=r"send_buffer\.rs:\d+:1: \d+:16>::unacked::\{closure#0\}$",
+  allowed_panics=r"attempt to compute", ignore_untranslatable=r".",
+  functions=["SendBuffer::unacked::{closure#0}"], pre=lambda c: "true", post=sbut_post,
+  bounds="every range: the term summed per acknowledged range is its length, end - start",
+  replay=("sendbuf_unacked_native", lambda m: [dict(x=0)]))
+
+
+# ------------------------------------------------------------------ C16 / C13: the predicted 1-RTT overhead counts the REMOTE connection ID that short headers carry
+def p1o_post(c, p):
+    st = p.p.state
+    if p.p.outcome != "return":
+        return "true"
+    act = [x for x in st.calls if re.search(r"CidQueue::active$", x[0])]
+    der = [x for x in st.calls if re.search(r"ConnectionId as (std::ops::)?Deref>::deref$", x[0])]
+    tag = [x for x in st.calls if re.search(r"Connection::tag_len_1rtt$", x[0])]
+    if len(act) != 1 or len(der) != 1 or len(tag) != 1:
+        return "false"
+    rem = "*_1.%d" % c.field("connection/mod.rs", "Connection", "rem_cids")
+    if not (act[0][1][0][0] == "ref" and str(_k(act[0][1][0][1])) == rem):
+        return "false"
+    if not (der[0][1][0][0] == "ref" and str(_k(der[0][1][0][1])) == str(act[0][2])):
+        return "false"
+    ln = st.ptrmeta.get(str(der[0][2]))
+    if ln is None:
+        return "false"
+    pnl = [x for x in st.calls if re.search(r"PacketNumber::len$", x[0])]
+    pn_len = bv(4) if not pnl else (pnl[0][2] if str(pnl[0][2]).startswith("|") else c.ex.read_key(st, pnl[0][2], BV64).t)
+    tl = tag[0][2] if str(tag[0][2]).startswith("|") else c.ex.read_key(st, tag[0][2], BV64).t
+    want = "(bvadd (bvadd (bvadd (_ bv1 64) %s) %s) %s)" % (ln.t, pn_len, tl)
+    has_pn = eq(c.inp("_2#discr", I64), bv(1))
+    return and_(eq(c.ex.read_key(st, "_0", BV64).t, want), "true" if pnl else not_(has_pn))
+
+
+Q(name="e2_predict_1rtt_overhead_remote_cid", props=["C16", "C13"], func=r"connection/mod\.rs:\d+:1: \d+:16>::predict_1rtt_overhead$",
+  allowed_panics=r"attempt to compute", ignore_untranslatable=r"^$",
+  functions=["Connection::predict_1rtt_overhead"], pre=lambda c: "true", post=p1o_post,
+  bounds="every connection state, with or without a packet number: the predicted overhead of a 1-RTT packet is 1 (flags) + the length of the ACTIVE REMOTE connection ID (rem_cids.active(), the one short headers carry; its length is an arbitrary value) + the packet-number length (4 without a number) + the AEAD tag length; CidQueue::active, PacketNumber::{new,len} and tag_len_1rtt are opaque.  Datagrams::max_size, frame_space_1rtt and the datagram fit checks are computed from this value (e2_datagrams_max_size), so counting the locally issued CIDs' length instead reports a maximum that does not fit when the peer's CIDs are longer",
+  replay=("conn_predict_overhead_native", lambda m: [dict(x=0)]))
+
+
 # ------------------------------------------------------------------ C12: a packet the space forgets about leaves the in-flight accounting (PathData::sent)
 def pdsf_post(c, p):
     st = p.p.state
